@@ -5,9 +5,10 @@ CONSTANTS
   BufSize = 3
   CpInterval = 2
   MaxAdv = 2
-  Atomic = FALSE
+  Atomic = TRUE
   Eager = FALSE
   Emit = FALSE
-INVARIANTS SafetyAsWritten
+  AdvKinds = {"flip", "dup", "drop", "swap", "splice", "replaycp", "delaycps"}
+INVARIANTS SafetyFull
 CHECK_DEADLOCK FALSE
 VIEW MCView
